@@ -74,3 +74,68 @@ func vhProfilePlaceholder() {
 		vAssert(exts == want, "number of extensions in the certificate differs from the effective configuration")
 	}
 }
+
+// vhMergeRealKinds: C08 with the real v1 extension types (the merge rule
+// matches profile entries and certificate extensions by their OID). Every
+// kind reports the OID of the reference table (RFC 5280 / 6960 / Common PKI),
+// and for every pair of kinds (A in the profile with override, B in the
+// certificate): the certificate's extension replaces the profile's iff A = B,
+// otherwise the profile's entry is inherited in front of it.
+func vhMergeRealKinds() {
+	a, b := vChoose("profileKind", vNumKinds), vChoose("certKind", vNumKinds)
+	pexts, err := parseExtensions([]AnyExtension{vRawExt(a, nullPrefix, false)})
+	vAssert(err == nil && len(pexts) == 1, "parseExtensions failed")
+	cexts, err2 := parseExtensions([]AnyExtension{vRawExt(b, emptyPrefix, true)})
+	vAssert(err2 == nil && len(cexts) == 1, "parseExtensions failed")
+	if err != nil || err2 != nil || len(pexts) != 1 || len(cexts) != 1 {
+		return
+	}
+	vAssert(vOidIs(pexts[0].Oid(), vRefOid[a]), "an extension kind reports another OID than the one it stands for")
+	vAssert(vOidIs(cexts[0].Oid(), vRefOid[b]), "an extension kind reports another OID than the one it stands for")
+	prof := config.CertificateProfile{Name: "p", Extensions: []config.ProfileExtension{{ExtensionConfig: pexts[0],
+		ExtensionProfile: config.ExtensionProfile{Override: true}}}}
+	content := config.CertificateContent{Alias: "c", Extensions: cexts}
+	out, err := config.Merge(prof, content)
+	vAssert(err == nil && out != nil, "Merge failed")
+	if err != nil || out == nil {
+		return
+	}
+	vReach("merged")
+	if a == b {
+		vAssert(len(out.Extensions) == 1 && vOidIs(out.Extensions[0].Oid(), vRefOid[b]), "an overridable profile entry was not replaced by the certificate's extension of the same kind")
+	} else {
+		vAssert(len(out.Extensions) == 2 && vOidIs(out.Extensions[0].Oid(), vRefOid[a]) && vOidIs(out.Extensions[1].Oid(), vRefOid[b]),
+			"extensions of different kinds were treated as the same extension by the merge")
+	}
+}
+
+// vhProfileAttrsConvert: C09 / C08, the step before Validate: the subject
+// attribute list of a profile file - 0..3 entries over {C, O, CN, custom
+// OID}, repeated names allowed, optional flags and allowOther symbolic -
+// reaches the internal profile exactly as written: same length, order,
+// names and flags.
+func vhProfileAttrsConvert() {
+	vClockFixed(1709640000) // the profile has no validity block: toTimeStruct reads the clock
+	names := []string{"C", "O", "CN", "1.2.3.4"}
+	n := vChoose("n", 4)
+	var attrs []config.ProfileSubjectAttribute
+	for k := 0; k < n; k++ {
+		attrs = append(attrs, config.ProfileSubjectAttribute{Attribute: names[vChoose(vName("attr", k), len(names))], Optional: vBool(vName("optional", k))})
+	}
+	allow := vBool("allowOther")
+	p := Profile{ProfileName: "p", Version: 1}
+	p.SubjectAttributes.AllowOther = allow
+	p.SubjectAttributes.Attributes = attrs
+	out, err := initProfile(p)
+	vAssert(err == nil && out != nil, "initProfile rejected a valid attribute list")
+	if err != nil || out == nil {
+		return
+	}
+	vReach("converted")
+	got := out.SubjectAttributes
+	vAssert(got.AllowOther == allow, "allowOther changed in the conversion")
+	vAssert(len(got.Attributes) == n, "the profile's attribute list changed its length in the conversion")
+	for k := 0; k < n && k < len(got.Attributes); k++ {
+		vAssert(got.Attributes[k].Attribute == attrs[k].Attribute && got.Attributes[k].Optional == attrs[k].Optional, "an entry of the profile's attribute list changed in the conversion")
+	}
+}
